@@ -18,6 +18,15 @@ RULE = ('candidate header lines are placed as the 2nd line after a valid '
         'substituted at every position by every alphabet symbol; (5) CR '
         'variants under LF and CRLF files. Distinct by construction; '
         'non-trivial = the line starts with "#".')
+RULE += (
+         ' Also: (6) integer values of 1..25, 100, 640, ~4300, 5000, 10000 '
+         'and 100000 digits (int or verbatim text accepted beyond the '
+         'interpreter digit limit); (7) every non-ASCII code point that case'
+         ' mapping, case folding, NFKC/NFKD or its digit value turns into a '
+         'grammar character, in UTF-8 and Latin-1, substituted at key / '
+         'value / name / punctuation positions: all must be rejected. '
+         'Process axes (DESIGN 2.8): 2 of 16 shards run under python -O, 4 '
+         'of 16 after a hostile warm-up of the library.')
 FLOOR = {'quick': 50000, 'thorough': 500000}
 REQUIRED_REACH = ['reader.py:']
 REQUIRED_COUNTERS = ['oracle_accepts', 'oracle_rejects']
